@@ -21,9 +21,11 @@ def charset? : Sexp → Option Charset
 def exc? : Sexp → Option Exc
   | .atom "ValueError" => some .valueError | .atom "OSError" => some .osError
   | .atom "UnicodeDecodeError" => some .unicodeDecodeError
+  | .atom "IndexError" => some .indexError        -- (the email parser on an RFC 2231 name with a degenerate value, finding nameNotLowerToken)
   | _ => none
 def ofExc : Exc → Sexp
   | .valueError => .atom "ValueError" | .osError => .atom "OSError" | .unicodeDecodeError => .atom "UnicodeDecodeError"
+  | .indexError => .atom "IndexError"
 
 def streamIn? : List Sexp → Option StreamIn
   | [f, d0, d1, p0, cs, sk, bn, it, caps] => do
@@ -100,8 +102,8 @@ def trace? : Sexp → Option Trace
   | .list [.atom "eq", a, b, e] => do some (.eq (← list? bytes? a) (← list? bytes? b) (← bool? e))
   | .list [.atom "text", c, t, a] => do some (.text (← list? bytes? c) (← bool? t) (← opt? (list? nat?) a))
   | .list [.atom "json", c, t, l] => do some (.json (← list? bytes? c) (← bool? t) (← bool? l))
-  | .list [.atom "decode", p, e, w] => do
-      some (.decode (← opt? (list? (list? nat?)) p) (← opt? exc? e) (← opt? (list? nat?) w))
+  | .list [.atom "decode", a, ae, p, e, w] => do
+      some (.decode (← opt? (list? nat?) a) (← opt? exc? ae) (← opt? (list? (list? nat?)) p) (← opt? exc? e) (← opt? (list? nat?) w))
   | .list [.atom "stream", evs] => (list? ev? evs).map .stream
   | .list [.atom "ctype", r, p] => do some (.ctype (← list? nat? r) (← parsed? p))
   | .list [.atom "ctypeSeq", rs] => (list? (pair? (list? nat?) parsed?) rs).map .ctypeSeq
@@ -112,7 +114,7 @@ def ofTrace : Trace → Sexp
   | .eq a b e => tag "eq" [ofList ofNats a, ofList ofNats b, ofBool e]
   | .text c t a => tag "text" [ofList ofNats c, ofBool t, ofOpt ofNats a]
   | .json c t l => tag "json" [ofList ofNats c, ofBool t, ofBool l]
-  | .decode p e w => tag "decode" [ofOpt (ofList ofNats) p, ofOpt ofExc e, ofOpt ofNats w]
+  | .decode a ae p e w => tag "decode" [ofOpt ofNats a, ofOpt ofExc ae, ofOpt (ofList ofNats) p, ofOpt ofExc e, ofOpt ofNats w]
   | .stream evs => tag "stream" [ofList ofEv evs]
   | .ctype r p => tag "ctype" [ofNats r, ofParsed p]
   | .ctypeSeq rs => tag "ctypeSeq" [ofList (ofPair ofNats ofParsed) rs]
@@ -121,7 +123,7 @@ def ofTrace : Trace → Sexp
 /-! known-finding classes (KNOWN_FINDINGS.txt); the predicates live in the model file -/
 def ctClasses (ct : CT) : List String :=
   (if charsetComma ct then ["charsetComma"] else []) ++ (if valueCRLF ct then ["valueCRLF"] else [])
-    ++ (if valueEncodedWord ct then ["valueEncodedWord"] else [])
+    ++ (if valueEncodedWord ct then ["valueEncodedWord"] else []) ++ (if nameNotLowerToken ct then ["nameNotLowerToken"] else [])
 
 def classes : Input → List String
   | .ctype ct => ctClasses ct
